@@ -543,6 +543,14 @@ theorem step_scores (find : Bytes → Nat → Bytes → Option Nat) (s : Sys) (e
         · rename_i h; exact phaseWrite_dir h
         · rfl)
     simp only [stepMoves]; refine ⟨this.1, this.2.1, by omega, by omega⟩
+  | giveUp i =>
+    have := same (stepEv find s (.giveUp i)) rfl
+    simp only [stepMoves]; refine ⟨this.1, this.2.1, by omega, by omega⟩
+  | ext n bs =>
+    have := same (stepEv find s (.ext n bs)) (by
+      simp only [stepEv, extAppend]
+      split <;> rfl)
+    simp only [stepMoves]; refine ⟨this.1, this.2.1, by omega, by omega⟩
   | index i =>
     simp only [stepEv, stepMoves]
     cases hp : s.pending[i]? with
@@ -586,6 +594,112 @@ theorem interleaved_scores_bounded (find : Bytes → Nat → Bytes → Option Na
     refine ⟨by rw [b1, a1], b2, ?_, ?_⟩
     · simp only [moves, Int.natCast_add]; omega
     · simp only [moves, Int.natCast_add]; omega
+
+/-! #### never rewrite, under interleaving -/
+
+/-- one step of any commenter or of another lock holder leaves every article file a prefix of what it becomes. -/
+theorem step_files_prefix (find : Bytes → Nat → Bytes → Option Nat) (s : Sys) (ev : Ev) (n old : Bytes)
+    (h : fileGet s.st.files n = some old) :
+    ∃ suf, fileGet (stepEv find s ev).st.files n = some (old ++ suf) := by
+  have same : ∀ s' : Sys, s'.st.files = s.st.files → ∃ suf, fileGet s'.st.files n = some (old ++ suf) := by
+    intro s' h'; exact ⟨[], by rw [h', h, List.append_nil]⟩
+  have setCase : ∀ (m x : Bytes) (oldm : Bytes), fileGet s.st.files m = some oldm →
+      ∃ suf, fileGet (fileSet s.st.files m (oldm ++ x)) n = some (old ++ suf) := by
+    intro m x oldm hm
+    by_cases hnm : n = m
+    · subst hnm
+      rw [h] at hm; injection hm with hm; subst hm
+      exact ⟨x, fileGet_fileSet_same _ _ _ _ h⟩
+    · exact ⟨[], by rw [fileGet_fileSet_other _ _ _ _ hnm, h, List.append_nil]⟩
+  cases ev with
+  | begin cfg q => exact same _ (by simp only [stepEv]; split <;> rfl)
+  | giveUp i => exact same _ rfl
+  | index i =>
+    simp only [stepEv]
+    split
+    · exact same _ rfl
+    · rename_i t _
+      exact same ⟨(phaseIndex s.st t).1, _⟩ (phaseIndex_cases s.st t).1
+  | write i =>
+    simp only [stepEv]
+    split
+    · exact same _ rfl
+    · rename_i t _
+      unfold phaseWrite
+      simp only []
+      cases hm : fileGet s.st.files (cstr (field t.copy offFilename lenFilename)) with
+      | none => exact same _ rfl
+      | some oldm => exact setCase _ _ _ hm
+  | ext m bs =>
+    simp only [stepEv, extAppend]
+    cases hm : fileGet s.st.files m with
+    | none => exact same _ rfl
+    | some oldm => exact setCase _ _ _ hm
+
+/-- **interleaved_files_prefix**: for EVERY interleaving of commenters' phases and of other lock holders'
+appends, every article file that existed is still there and starts with all the bytes it had: nothing that
+was ever in an article is rewritten (every write is `content ++ line` evaluated at the time of the write). -/
+theorem interleaved_files_prefix (find : Bytes → Nat → Bytes → Option Nat) (evs : List Ev) (s : Sys) (n old : Bytes)
+    (h : fileGet s.st.files n = some old) :
+    ∃ suf, fileGet (runEv find s evs).st.files n = some (old ++ suf) := by
+  induction evs generalizing s old with
+  | nil => exact ⟨[], by simp [runEv, h]⟩
+  | cons ev rest ih =>
+    obtain ⟨x, hx⟩ := step_files_prefix find s ev n old h
+    obtain ⟨y, hy⟩ := ih (stepEv find s ev) (old ++ x) hx
+    exact ⟨x ++ y, by rw [← List.append_assoc]; exact hy⟩
+
+/-- **appends_preserve_bytes**: the append itself, at the level of its steps.  Any number of appenders of this
+process (open; non-blocking lock that only succeeds on a free lock; write as holder, or without lock in the
+NoSmartMerge branch; unlock) and another process taking the lock and appending, in ANY order: with the
+O_APPEND rule every earlier content is a prefix of every later one. -/
+theorem appends_preserve_bytes (evs : List AEv) (s : AState) :
+    ∃ suf, (runA appendRule s evs).content = s.content ++ suf := by
+  induction evs generalizing s with
+  | nil => exact ⟨[], by simp [runA]⟩
+  | cons ev rest ih =>
+    have hstep : ∃ x, (stepA appendRule s ev).content = s.content ++ x := by
+      cases ev with
+      | «open» l => exact ⟨[], by simp [stepA]⟩
+      | lock i => exact ⟨[], by simp only [stepA]; split <;> simp⟩
+      | write i =>
+        simp only [stepA]
+        split
+        · rename_i a _
+          split
+          · exact ⟨a.line, rfl⟩
+          · exact ⟨[], by simp⟩
+        · exact ⟨[], by simp⟩
+      | writeNoLock i =>
+        simp only [stepA]
+        split
+        · rename_i a _; exact ⟨a.line, rfl⟩
+        · exact ⟨[], by simp⟩
+      | unlock i => exact ⟨[], by simp only [stepA]; split <;> simp⟩
+      | extLock => exact ⟨[], by simp only [stepA]; split <;> simp⟩
+      | extAppend bs =>
+        simp only [stepA]
+        split
+        · exact ⟨bs, rfl⟩
+        · exact ⟨[], by simp⟩
+      | extUnlock => exact ⟨[], by simp only [stepA]; split <;> simp⟩
+    obtain ⟨x, hx⟩ := hstep
+    obtain ⟨y, hy⟩ := ih (stepA appendRule s ev)
+    refine ⟨x ++ y, ?_⟩
+    show (runA appendRule (stepA appendRule s ev) rest).content = _
+    rw [hy, hx, List.append_assoc]
+
+/-- **stale_offset_overwrites** (the rule of seeded change C10-r3-2): when the position of the write is the end
+of the file at OPEN time — a descriptor without O_APPEND that seeks to the end before it has the lock — an
+appender that opens while another process holds the lock and appends writes over that process's line; with
+the real rule both lines are there. -/
+theorem stale_offset_overwrites :
+    let s0 : AState := ⟨[104, 10], .free, []⟩
+    let evs := [AEv.extLock, .open [99, 99, 10], .lock 0, .extAppend [120, 121, 10], .extUnlock, .lock 0, .write 0, .unlock 0]
+    (runA appendRule s0 evs).content = [104, 10, 120, 121, 10, 99, 99, 10] ∧
+    (runA staleOffsetRule s0 evs).content = [104, 10, 99, 99, 10] ∧
+    ¬ ([104, 10, 120, 121, 10] <+: (runA staleOffsetRule s0 evs).content) := by
+  decide
 
 /-- the sequential comment is the special case "phase A, write, index" with nothing in between. -/
 theorem sequential_is_interleaving (find : Bytes → Nat → Bytes → Option Nat) (cfg : Cfg) (st : St) (q : Req) :
